@@ -351,6 +351,10 @@ def install3(R: Registry):
                    ("C08", "implies(result != null, known_cls[result.header.msg_type] != 0 and dtype(result.data) == known_cls[result.header.msg_type])"),
                    ("C08", "implies(result == null, self._sock.rx_idx == old(self._sock.rx_idx) and self._sock.rx_off == 0)", "a timeout consumes nothing"),
                    ("C08", "self._connected == old(self._connected)"), ("C08", RD_FRAME), ("C08", "rx_wf(self._sock)"),
+                   ("C08", "implies(result != null, ite(result.data.type_size == -1, sizeof_cls(dtype(result.data)), result.data.type_size) == self._sock.fr_hdr[old(self._sock.rx_idx)].num_data_bytes)",
+                    "a frame whose payload size differs from the local definition is never returned (the documented error is raised instead)"),
+                   ("C08", "implies(result != null and sync_check and self._sock.fr_hdr[old(self._sock.rx_idx)].reserved != 0, self._sock.fr_hdr[old(self._sock.rx_idx)].reserved == result.data.type_hash)",
+                    "with the sync check requested, a frame - with or without payload - whose non-zero version hash differs from the local one is never returned"),
                ],
                raises={
                    "UnknownMessageType": [("C08", "known_cls[self._sock.fr_hdr[old(self._sock.rx_idx)].msg_type] == 0", "raised exactly for a type without a local definition"),
